@@ -22,6 +22,7 @@ from __future__ import annotations
 import os
 import re
 import shutil
+import sys
 import tempfile
 import time
 
@@ -33,7 +34,8 @@ RULE = ("scenarios = 2-3 thread programs over {get same/different URI, tick + mo
         "distinct contexts (cached def => first use of Template.cache), adjust_uri on a plain / bounded lookup, "
         "renders with <%include> on a bounded lookup (oracle only), first cached calls of a def with its own cache_region "
         "on a region-dependent back end with a point at every line of mako/cache.py (oracle only, every stop line of "
-        "one thread x the other running to completion)} x every schedule at the model's scheduling "
+        "one thread x the other running to completion), first renders with <%namespace module=...> of a fresh module "
+        "whose body yields between its definitions (oracle only; the import lock is an instrumented lock)} x every schedule at the model's scheduling "
         "points (collection read/write/pop, os.stat, os.path.isfile, mutex acquire/release, Template construction, "
         "LRU len/del, memoized_property miss, _uri_cache test/read/store), enumerated in order of increasing "
         "preemption count until the tier's time share of the scenario is used up; plus PCT "
@@ -127,9 +129,14 @@ def scenarios(tier):
     return L
 
 
+NS_MODULE = ["c16ns_0"]       # name of the (fresh, never imported) module of the current run, kind "nsmodule"
+
+
 def content(u, ver, good, kind):
     if not good:
         return "U%dV%d|${x" % (u, ver)
+    if kind == "nsmodule":
+        return "<%%namespace name=\"h\" module=\"%s\"/>U%dV%d|${x}|${h.shout(x)}" % (NS_MODULE[0], u, ver)
     if kind == "cached-region":
         return ("U%dV%d|${x}|<%%def name=\"c()\" cached=\"True\" cache_region=\"r1\">C</%%def>${c()}" % (u, ver))
     if kind == "include":
@@ -139,7 +146,7 @@ def content(u, ver, good, kind):
     return "U%dV%d|${x}|" % (u, ver)
 
 
-OUT_RE = re.compile(r"^U(\d+)V(\d+)\|(.*?)\|(C?|I\d+)$")
+OUT_RE = re.compile(r"^U(\d+)V(\d+)\|(.*?)\|(C?|I\d+|S.*)$")
 
 
 # --------------------------------------------------------------------------- one execution on the real code
@@ -163,8 +170,14 @@ class Runner:
         self.TemplateLookup = TemplateLookup
         self.pred = S.mako_code_predicate()
         self.written = set()
+        self.ns_count = 0
+        self.ns_modules = []
 
     def close(self):
+        for name in self.ns_modules:
+            sys.modules.pop(name, None)
+        if self.base in sys.path:
+            sys.path.remove(self.base)
         try:
             self.world.__exit__(None, None, None)
         finally:
@@ -197,6 +210,23 @@ class Runner:
         world.lru_inside = 0
         world.lru_del_keyerrors = 0
         world.memo_inits = {}
+        if sc["kind"] == "nsmodule":
+            import importlib
+            self.ns_count += 1
+            name = "c16ns_%d_%d" % (os.getpid(), self.ns_count)
+            NS_MODULE[0] = name
+            if self.base not in sys.path:
+                sys.path.insert(0, self.base)
+            with open(os.path.join(self.base, name + ".py"), "w") as f:
+                f.write("from harness.sched import module_point\n"
+                        "module_point()\n"
+                        "def whisper(context, x):\n    return 'w' + str(x)\n"
+                        "module_point()\n"
+                        "def shout(context, x):\n    return 'S' + str(x)\n"
+                        "module_point()\n")
+            importlib.invalidate_caches()
+            self.ns_modules.append(name)
+            world.importing.clear()
         state = {}            # (d, u) -> [ver, mtime, good]
         history = {}          # (d, u) -> {ver: good}
         for d in range(sc["ndirs"]):
@@ -788,6 +818,13 @@ def cache_lines_stream(ctx, runner, seen_sites):
                               % (first, k, sum(1 for l in stopped if l == "l")), "oracle.cache-lines")
 
 
+def ns_module_scenario():
+    """first renders of a template with <%namespace module="…"/> whose module has never been imported; the module's
+    top level yields to the scheduler between its definitions (oracle only)"""
+    return dict(scn("ns-module-first-import", [["g0", "r11"], ["g0", "r22"]], kind="nsmodule", prologue=["g0"]),
+                model=False)
+
+
 def corpus_stream(ctx, runner, seen_sites):
     """minimised past failing schedules, replayed first (implementation oracle + model on the same schedule)"""
     import glob
@@ -818,7 +855,7 @@ def run(ctx):
     try:
         corpus_stream(ctx, runner, seen_sites)
         cache_lines_stream(ctx, runner, seen_sites)
-        scs = scenarios(ctx.tier) + include_scenarios(ctx.tier)
+        scs = scenarios(ctx.tier) + include_scenarios(ctx.tier) + [ns_module_scenario()]
         t_end = time.time() + (30 if ctx.quick else 330)
         total = 0
         per = 700 if ctx.quick else 60000
